@@ -577,6 +577,11 @@ func runC20(c *Check, a *Analysis) {
 			if !ok || calleeName(cc) != "builtin close" {
 				return
 			}
+			// a channel made by the enclosing function for one use (a barrier, a one-shot
+			// signal) is not shared state: only long-lived channels (fields) need the election
+			if mk, isMk := p.canon(cc.Call.Args[0]).(*ssa.MakeChan); isMk && topParent(mk.Parent()) == topParent(fn) && !p.inLoop(in) {
+				return
+			}
 			g, _ := p.guardedBy(in, matchCAS(p))
 			c.Ob("R-CLOSE-ONCE", sc.key(fn, "close(ch) behind CAS"), p.InstrPos(in), g, ifs(!g, "close of a channel is reachable more than once (second Close panics: close of closed channel)"))
 		})
